@@ -98,6 +98,21 @@ func c16Gen(r *RNG, id string) *Case {
 	}
 	c := NewCase("C16", id)
 	ids, descs, seqs := c16Valid(r)
+	if r.Chance(1, 150) {
+		// sequences longer than bufio.Scanner's default 64 KiB token on one line each (a large genome, unwrapped)
+		w := 66000 + r.Intn(9000)
+		ids, descs, seqs = []string{"long1", "long2"}, []string{"long1 unwrapped genome", "long2"}, nil
+		base := randSeq(r, w, symACGT, false)
+		seqs = append(seqs, base, mutateSeq(r, base, "ACGTN-", 1, 2000, true))
+		c.Tag("line-longer-than-64KiB")
+		text := ">" + descs[0] + "\n" + seqs[0] + "\n>" + descs[1] + "\n" + seqs[1] + "\n"
+		c.SetBool("hard", r.Bool()).Set("refid", "long2")
+		c.Set("kind", "layout").Set("ids", strings.Join(ids, ",")).Set("descs", strings.Join(descs, sepUS)).Set("seqs", strings.Join(seqs, ","))
+		c.Set("text", text)
+		c.NonTrv = true
+		c.Tag("layout")
+		return c
+	}
 	text := renderLayout(r, descs, seqs)
 	c.SetBool("hard", r.Bool())
 	refid := ids[r.Intn(len(ids))]
